@@ -226,6 +226,20 @@ class C16(Harness):
                 t2 = self._build(W, k, inp, sym)
                 t2.fit(a)
                 out["fit_on_array"] = rows_of(t2.transform(X))
+                # ... and as a nested frame whose cells carry time labels that do not start at 0 (values go by position)
+                import pandas as pd
+
+                X4 = X.copy()
+                for c in X4.columns:
+                    X4[c] = [pd.Series(list(cell_), index=pd.RangeIndex(4, 4 + len(cell_)), dtype=object if sym else float) for cell_ in X4[c]]
+                t4 = self._build(W, k, inp, sym)
+                try:
+                    t4.fit(X4)
+                    out["fit_on_offset_cells"] = rows_of(t4.transform(X))
+                except Exception as e:  # noqa
+                    if type(e).__module__.startswith("vf."):
+                        raise
+                    out["fit_on_offset_cells"] = {"raised": "%s: %s" % (type(e).__name__, str(e)[:60])}
             return out
         finally:
             worlds.TOKEN_MODE[0] = False
@@ -309,6 +323,10 @@ class C16(Harness):
             self._same(P, "container-independent", out["array_F"], full, dict(d, memory_order="F"))
             self._same(P, "container-independent", out["array"], full, d)
             self._same(P, "container-independent", out["fit_on_array"], full, dict(d, at="fit"))
+            if isinstance(out.get("fit_on_offset_cells"), dict):
+                P.check("container-independent", False, dict(d, at="fit on cells labelled from 4", raised=out["fit_on_offset_cells"]["raised"]))
+            elif "fit_on_offset_cells" in out:
+                self._same(P, "container-independent", out["fit_on_offset_cells"], full, dict(d, at="fit on cells labelled from 4"))
 
     def signature(self, label, inp, cell, detail=None):
         return "%s/%s" % (cell["kind"], label)
